@@ -239,20 +239,26 @@ theorem applyStringFlags_pad (f : Fmt) (s : Str) (q : Bool) :
   unfold applyStringFlags strCore hasStringFlags goFmtS
   cases hl : f.left <;> cases hw : f.width <;> cases hp : f.prec <;> simp [goPad, spaces]
 
-/-- **padding side, hand-written `p b B`**: blanks only, on the left unless `-`, around the rendering without a width -/
-theorem intPbB_pad (f : Fmt) (i : Int) :
+/-- the `0` flag of the hand-written branch is in effect -/
+def pbbZeroFlag (f : Fmt) : Bool := f.zeroPad && !f.left && f.prec.isNone && f.letter ≠ 'p'
+
+/-- **padding side, hand-written `p b B`**: unless the `0` flag is in effect, blanks only, on the left unless `-`,
+    around the rendering without a width -/
+theorem intPbB_pad (f : Fmt) (i : Int) (hz : pbbZeroFlag f = false) :
     let core := intPbB { f with width := none } i
     intPbB f i = if f.left then core ++ spaces (f.width.getD 0 - core.length) else spaces (f.width.getD 0 - core.length) ++ core := by
   have h1 : pbbSign { f with width := none } i = pbbSign f i := rfl
   have h2 : pbbDigits { f with width := none } i = pbbDigits f i := rfl
   have h3 : pbbPrefix { f with width := none } i = pbbPrefix f i := rfl
-  simp only [intPbB, h1, h2, h3]
+  have hzf : (f.zeroPad && !f.left && f.prec.isNone && decide (f.letter ≠ 'p')) = false := hz
+  have h4 : pbbZeroPad { f with width := none } i = pbbZeroPad f i := by
+    unfold pbbZeroPad
+    simp only [h1, h2, h3, hzf, Bool.false_eq_true, if_false]
+  simp only [intPbB, h1, h2, h3, h4]
   generalize pbbSign f i = sg
   generalize pbbDigits f i = ds
   generalize pbbPrefix f i = pf
-  have hlen : ∀ zp : Str, zp.length = f.prec.getD 0 - ds.length →
-      (sg ++ pf ++ zp ++ ds).length = sg.length + pf.length + max (f.prec.getD 0) ds.length := by
-    intro zp hz; simp [hz]; omega
+  generalize pbbZeroPad f i = zp
   cases hl : f.left <;> by_cases hp : f.letter = 'p' <;> simp [hp, spaces] <;> congr 1 <;> omega
 
 /-- **padding side, fmt integers**: when the `0` flag is not in effect the rendering is the rendering without a
